@@ -32,7 +32,7 @@ ASSUMPTIONS = ["server reachable for commands (C19 covers an unreachable server)
 EXHAUSTIVE = {"quick": False, "thorough": False}
 ALLOWED_AXIOMS = ["FunctionalExtensionality.functional_extensionality_dep"]   # through the server model's refinement theorem; named in TRUSTED_BASE
 U = sorted(["a", "b", "ab", "n"])
-VALUES = [1, 5, "x", "hello", b"raw", True]
+VALUES = [1, 5, "x", "hello", b"raw", True, 0, "", False, None, "123"]       # falsy values (0, '', False, None) and numeric-looking text included
 DEFAULT = "<default>"
 PREFIX = "cashews:"
 logging.getLogger("cashews.backends.redis.client").disabled = True
@@ -53,8 +53,8 @@ def _rand_cmd(rng):
     if r < 0.86: return ["delete_many", rng.sample(U, rng.randint(1, 2))]
     if r < 0.90: return ["delete_match", rng.choice(["a*", "*b", "n", "*"])]
     if r < 0.96: return ["expire", rng.choice(U), rng.choice([0.5, 1.0, 2.5])]
-    if r < 0.975: return ["set_lock", rng.choice(["a", "b"]), rng.choice([1, 5, 9]), rng.choice([0.5, 1.0, 2.5])]     # integer tokens: a lock is an only-if-absent write
-    if r < 0.99: return ["unlock", rng.choice(["a", "b"]), rng.choice([1, 5, 9])]
+    if r < 0.975: return ["set_lock", rng.choice(["a", "b"]), rng.choice([3, 5, 9]), rng.choice([0.5, 1.0, 2.5])]     # integer tokens: a lock is an only-if-absent write
+    if r < 0.99: return ["unlock", rng.choice(["a", "b"]), rng.choice([3, 5, 9])]
     return ["clear"]
 
 
@@ -98,8 +98,8 @@ def _lock_case(rng):
     for _ in range(rng.randint(4, 12)):
         r = rng.random()
         c = rng.randrange(n)
-        if r < 0.3: evs.append(["cmd", c, ["set_lock", k, rng.choice([1, 5, 9]), rng.choice([0.5, 1.0, 2.5])]])
-        elif r < 0.5: evs.append(["cmd", c, ["unlock", k, rng.choice([1, 5, 9])]])
+        if r < 0.3: evs.append(["cmd", c, ["set_lock", k, rng.choice([3, 5, 9]), rng.choice([0.5, 1.0, 2.5])]])
+        elif r < 0.5: evs.append(["cmd", c, ["unlock", k, rng.choice([3, 5, 9])]])
         elif r < 0.8: evs.append(["cmd", c, rng.choice([["exists", k], ["get", k], ["get_many", [k, "ab"]]])])
         elif r < 0.87: evs.append(["cmd", c, ["delete", k]])
         else: evs.append(["tick", rng.choice([1, 2, 4, 8, 20])])
